@@ -730,9 +730,12 @@ impl Monitors {
         if w.read > sent_bytes_in_order {
             v.push(f("C01", "read-prefix", "integrity/read-more-than-sent", format!("read {} bytes, the peer has sent only {} in order", w.read, sent_bytes_in_order)));
         }
-        for (who, r) in &rec.app {
+        // (several read results can fall into one step - the reader is re-polled when woken, or reads twice on
+        // its own thread: "nothing readable" is judged on the last one, when the reader is left parked)
+        let last_read = rec.app.iter().rposition(|(who, _)| *who == "read");
+        for (ri, (who, r)) in rec.app.iter().enumerate() {
             if *who == "read" {
-                if let AppRes::Pending = r {
+                if let (AppRes::Pending, true) = (r, Some(ri) == last_read) {
                     // nothing readable: then nothing acknowledged may be unread (acknowledged data is never discarded)
                     if let Some(a) = self.last_ack_nr {
                         let ai = idx_of(a).min(contig - 1);
@@ -829,6 +832,20 @@ impl Monitors {
                     }
                     _ => {}
                 }
+            }
+        }
+        // two datagrams processed by one poll: the immediate-ACK triggers still hold for the pair as a whole -
+        // if one of them is a duplicate, some acknowledgement leaves in that instant
+        if established && w.reader.is_some() && transport_ok && deliver2 && rec.emitted.is_empty() {
+            let dup = rec.peer_sent.iter().enumerate().any(|(k, (h, _, idx))| {
+                h.ptype == 0
+                    && match idx {
+                        Some(i) => w.trace[..w.trace.len() - 1].iter().any(|r| r.peer_sent.iter().any(|(h2, _, i2)| h2.ptype == 0 && *i2 == Some(*i))) || rec.peer_sent[..k].iter().any(|(h2, _, i2)| h2.ptype == 0 && *i2 == Some(*i)),
+                        None => false,
+                    }
+            });
+            if dup {
+                v.push(f("C07", "ack-timeliness", "ack/duplicate-not-acked-immediately", "a duplicate arrived together with another datagram, no ACK in the same instant".to_string()));
             }
         }
         // a FIN: acknowledged in the same instant, whether it is in order (the connection leaves
